@@ -112,7 +112,7 @@ def rule(rid, title):
 
 def _unevaluable():
     from analysis.terms import NotTabulable
-    return (KeyError, IndexError, TypeError, ValueError, AttributeError, AssertionError, RecursionError, NotTabulable)
+    return (KeyError, IndexError, TypeError, ValueError, AttributeError, AssertionError, RecursionError, NameError, NotTabulable)
 
 
 def run_rule(ctx, fn):
